@@ -744,6 +744,22 @@ class Mesh2DTopology:
         return self._to_index_array(
             self.face_node_connectivity, self.face_dimension)
 
+    def _has_face_table_dimensions(self, data_array: xarray.DataArray) -> bool:
+        """
+        Check that a connectivity variable has one row per face
+        and as many columns as the face_node_connectivity variable.
+        The second dimension is not named by the conventions
+        and does not have to be the one face_node_connectivity uses.
+        """
+        if len(data_array.dims) != 2 or self.face_dimension not in data_array.dims:
+            return False
+        other_dimension = next(
+            dimension for dimension in data_array.dims
+            if dimension != self.face_dimension)
+        return bool(
+            self.dataset.sizes[other_dimension]
+            == self.dataset.sizes[self.max_node_dimension])
+
     @cached_property
     def has_valid_face_edge_connectivity(self) -> bool:
         """
@@ -759,7 +775,7 @@ class Mesh2DTopology:
 
         actual = set(data_array.dims)
         expected = {self.face_dimension, self.max_node_dimension}
-        if actual != expected:
+        if not self._has_face_table_dimensions(data_array):
             warnings.warn(
                 f"Got a face_edge_connectivity variable {data_array.name!r} with "
                 f"unexpected dimensions {actual}, expecting {expected}",
@@ -841,7 +857,7 @@ class Mesh2DTopology:
 
         actual = set(data_array.dims)
         expected = {self.face_dimension, self.max_node_dimension}
-        if actual != expected:
+        if not self._has_face_table_dimensions(data_array):
             warnings.warn(
                 f"Got a face_face_connectivity variable {data_array.name!r} with "
                 f"unexpected dimensions {actual}, expecting {expected}",
